@@ -478,6 +478,102 @@ void misc_phase(World& w, const Task& t, Agg& a)
                 }
                 catch (const std::exception& e) { a.violation("playlist_entity_row|rejected", "[" + sn + "] add_back threw " + exname(e) + ": " + e.what(), cid); }
             }
+    // ---- whole-row calls handed a row in the wrong id state: add() / add_back() of a row that already names a stored row,
+    // update() of a row that names none, add_back() of a membership that is already there. The headers document an exception.
+    // The statement only gives this much: whatever such a call does, it may not disturb a stored row ("apart from the assigned
+    // id"; "changes that column only"). So: the call throws and the database is exactly as before, or (add / add_back) it
+    // returns the id of a row that reads back as written while every row that existed before is unchanged.
+    {
+        auto rows_of = [&](const char* table) { return w.query(std::string("SELECT * FROM ") + table + " ORDER BY id"); };
+        // when a new row was accepted, the successor link (and edit time) of its neighbour in the chain legitimately changes
+        auto others_unchanged = [&](const char* table, std::vector<std::vector<std::string>> before, int64_t new_id) {
+            auto after = rows_of(table);
+            std::vector<std::vector<std::string>> kept;
+            for (auto& r : after)
+                if (r[0] != std::to_string(new_id)) kept.push_back(r);
+            if (new_id >= 0)
+                for (auto* rows : {&before, &kept})
+                    for (auto& r : *rows)
+                    {
+                        if (std::string(table) == "Playlist" && r.size() > 5) r[4] = r[5] = "*";
+                        if (std::string(table) == "PlaylistEntity" && r.size() > 4) r[4] = "*";
+                    }
+            return kept == before;
+        };
+        auto probe = [&](const std::string& name, const char* table, const std::function<int64_t()>& call, const std::function<std::string(int64_t)>& reads_back) {
+            a.count("evaluations");
+            const std::string cid = sn + "|P|" + name;
+            const std::string d0 = w.dump();
+            auto before = rows_of(table);
+            try
+            {
+                int64_t id = call();
+                bool fresh = true;
+                for (auto& r : before) fresh = fresh && r[0] != std::to_string(id);
+                if (!others_unchanged(table, before, fresh ? id : -1)) a.violation("id_state|" + name + "|stored_row_disturbed", "[" + sn + "] " + name + " returned and a row that was already stored reads differently afterwards", cid);
+                else if (fresh && !reads_back(id).empty()) a.violation("id_state|" + name + "|not_preserved", "[" + sn + "] " + name + " returned a new id: " + reads_back(id), cid);
+                else a.count("validated");
+                a.count("id_state." + name + ".accepted");
+            }
+            catch (const std::exception&)
+            {
+                if (w.dump() != d0) a.violation("id_state|" + name + "|rejected_with_effect", "[" + sn + "] " + name + " threw but the database changed", cid);
+                else a.count("validated");
+                a.count("id_state." + name + ".rejected");
+            }
+        };
+        // track rows: t1 holds base_row(0); a different row that claims t1's id
+        auto claim = base_row(1);
+        claim.path = std::string("idstate/claimed.mp3");
+        claim.filename = std::string("claimed.mp3");
+        claim.id = t1;
+        probe("track_table::add(row.id = stored id)", "Track", [&] { return tt.add(claim); }, [&](int64_t id) {
+            auto g = tt.get(id);
+            if (!g) return std::string("get() of the returned id finds nothing");
+            std::string ff;
+            auto d = facts_diff(expected_facts(claim, id, t.schema, w.uuid), row_facts(*g), &ff);
+            return d.empty() ? d : "the new row does not read back as written: " + d;
+        });
+        claim.id = 424242;
+        probe("track_table::add(row.id = unused id)", "Track", [&] { return tt.add(claim); }, [&](int64_t id) {
+            auto g = tt.get(id);
+            if (!g) return std::string("get() of the returned id finds nothing");
+            std::string ff;
+            auto d = facts_diff(expected_facts(claim, id, t.schema, w.uuid), row_facts(*g), &ff);
+            return d.empty() ? d : "the new row does not read back as written: " + d;
+        });
+        claim.id = v2::TRACK_ROW_ID_NONE;
+        claim.path = std::string("idstate/none.mp3");
+        probe("track_table::update(row.id = none)", "Track", [&] { tt.update(claim); return (int64_t)-1; }, [&](int64_t) { return std::string(); });
+        // playlist rows
+        v2::playlist_row prow{ids[0], "idstate-list", 0, false, v2::PLAYLIST_NO_NEXT_LIST_ID, tpt{seconds{77}}, false};
+        auto pl_reads = [&](int64_t id) {
+            auto g = pl.get(id);
+            return g && g->title == prow.title && g->parent_list_id == 0 && !g->is_persisted && !g->is_explicitly_exported ? std::string() : std::string("the new list does not read back as written");
+        };
+        probe("playlist_table::add(row.id = stored id)", "Playlist", [&] { return pl.add(prow); }, pl_reads);
+        prow.id = v2::PLAYLIST_ROW_ID_NONE;
+        prow.title = "idstate-none";
+        probe("playlist_table::update(row.id = none)", "Playlist", [&] { pl.update(prow); return (int64_t)-1; }, pl_reads);
+        // membership rows: list ids[0] holds exactly one entity at this point (the last add_back of the loop above)
+        auto have = pe.get_for_list(ids[0]);
+        if (have.size() != 1) a.violation("harness|id_state|setup", "[" + sn + "] expected one entity in the list", sn + "|P|id_state");
+        else
+        {
+            auto e = have.front();
+            auto dup = e;
+            dup.id = v2::PLAYLIST_ENTITY_ROW_ID_NONE;
+            for (bool thr : {true, false})
+                probe(std::string("playlist_entity_table::add_back(duplicate, throw_if_duplicate=") + (thr ? "true)" : "false)"), "PlaylistEntity", [&] { return pe.add_back(dup, thr); }, [&](int64_t) { return std::string("a second entity for a (list, track, database) that is already in the list"); });
+            auto withid = e;
+            withid.track_id = e.track_id == t1 ? t2 : t1;
+            probe("playlist_entity_table::add_back(row.id = stored id)", "PlaylistEntity", [&] { return pe.add_back(withid); }, [&](int64_t id) {
+                for (auto& r : pe.get_for_list(ids[0]))
+                    if (r.id == id) return r.track_id == withid.track_id && r.database_uuid == withid.database_uuid && r.membership_reference == withid.membership_reference ? std::string() : std::string("the new entity does not read back as written");
+                return std::string("the new entity is not listed");
+            });
+        }
+    }
     // ---- information table
     {
         a.count("evaluations");
